@@ -136,7 +136,7 @@ theorem signal_in_body_marks_failed {cfg : Cfg} (hm : cfg.markerFirst = true) {d
     file removed, lock released. -/
 theorem signal_in_body_then_exit {cfg : Cfg} {done : Bool} {failed : Option Nat} {s : St} (h : Reach cfg done failed s)
     (i : Nat) (hr : running s i = true) (sg : Sig) (hsg : sg = .term ∨ sg = .int) :
-    let s' := runAlone cfg i 10 (act cfg s (.signal i sg))
+    let s' := runAlone cfg i 11 (act cfg s (.signal i sg))
     s'.sh.failed = some 1 ∧ s'.sh.done = false ∧ (s'.procs i).dead = some (.code 1) ∧ s'.sh.lock = none ∧ s'.sh.pid = none := by
   have inv := inv_reach h
   simp only [running, Bool.and_eq_true, decide_eq_true_eq] at hr
@@ -162,8 +162,8 @@ theorem signal_in_body_then_exit {cfg : Cfg} {done : Bool} {failed : Option Nat}
   have hs1 : act cfg s (.signal i sg) = { s with procs := upd s.procs i p1 } := by
     simp [act, hlt, hc]
   have := solo_signal cfg i s.sh p1 k c h1 h2 h3 hlock hnd h4 h5
-  have hs' : s' = runAlone cfg i 10 { s with procs := upd s.procs i p1 } := by simp only [s', hs1]
-  rw [hs', runAlone_eq cfg i 10 { s with procs := upd s.procs i p1 } hlt]
+  have hs' : s' = runAlone cfg i 11 { s with procs := upd s.procs i p1 } := by simp only [s', hs1]
+  rw [hs', runAlone_eq cfg i 11 { s with procs := upd s.procs i p1 } hlt]
   obtain ⟨t1, t2, t3, t4, t5⟩ := this
   simp [upd]
   exact ⟨t1, t2, t5, t3, t4⟩
